@@ -1,10 +1,12 @@
 (* C09 — Results do not depend on listing order.
    What is proved: every lookup the traversal performs is by (unique) name, and lookups, substitution and
-   evaluation are invariant under permutation of the listing.  What is exercised by the stream only
-   (partial): that any two topological processing orders of the children give semantically equal results,
-   and that the preprocessing stages are order-insensitive. *)
+   evaluation are invariant under permutation of the listing; the LOCAL VARIABLES of a routine compile to the same
+   values however they are listed (any two dependency-respecting compilation orders agree, and the order the
+   model derives from a listing is one).  What is exercised by the stream only (partial): that any two topological
+   processing orders of the CHILDREN give semantically equal results, and that the preprocessing stages are
+   order-insensitive. *)
 From Coq Require Import List String QArith Permutation.
-From Bq Require Import Expr ExprFacts RepModel Routine Compare Compile CompileTop EvaluateFacts ListingFacts.
+From Bq Require Import Expr ExprFacts RepModel Routine Compare Compile CompileTop EvaluateFacts ListingFacts LocalsOrderFacts.
 Import ListNotations.
 Open Scope string_scope.
 
@@ -41,6 +43,34 @@ Theorem C09_evaluate_order_free : forall s s' t,
   NoDup (keys s) -> Permutation s s' -> evaluate s t = evaluate s' t.
 Proof. exact evaluate_perm. Qed.
 Print Assumptions C09_evaluate_order_free.
+
+(* local variables: list them in any order *)
+Theorem C09_local_variables_listing_free : forall (locals locals' : list (string * expr)) inputs o1 o2 lv1 lv2,
+  NoDup (keys locals) -> Permutation locals locals' ->
+  local_order locals = Some o1 -> local_order locals' = Some o2 ->
+  compile_locals ev_subst o1 locals inputs [] = Ok lv1 ->
+  compile_locals ev_subst o2 locals' inputs [] = Ok lv2 ->
+  forall x, lookup x lv1 = lookup x lv2.
+Proof. exact locals_listing_free. Qed.
+Print Assumptions C09_local_variables_listing_free.
+
+(* ... indeed ANY two orders that respect the dependencies give the same values *)
+Theorem C09_local_variables_order_free : forall (locals : list (string * expr)) inputs o1 o2 lv1 lv2,
+  compile_locals ev_subst o1 locals inputs [] = Ok lv1 ->
+  compile_locals ev_subst o2 locals inputs [] = Ok lv2 ->
+  NoDup o1 -> NoDup o2 -> (forall x, In x o1 <-> In x o2) ->
+  respects locals o1 -> respects locals o2 ->
+  forall x, lookup x lv1 = lookup x lv2.
+Proof. exact compile_locals_order_free. Qed.
+Print Assumptions C09_local_variables_order_free.
+
+Example C09_locals_nonvacuous :
+  let locals := [("w", eadd (ESym "L") (EZ 3)); ("L", emul (EZ 2) (ESym "n"))] in
+  let locals' := [("L", emul (EZ 2) (ESym "n")); ("w", eadd (ESym "L") (EZ 3))] in
+  local_order locals = Some ["L"; "w"] /\ local_order locals' = Some ["L"; "w"] /\
+  exists lv, compile_locals ev_subst ["L"; "w"] locals [("n", ESym "N")] [] = Ok lv /\
+             lookup "w" lv = Some (eadd (emul (EZ 2) (ESym "N")) (EZ 3)).
+Proof. repeat split; try (vm_compute; reflexivity). eexists. split; vm_compute; reflexivity. Qed.
 
 Example C09_nonvacuous :
   let s := [("N", ESym "M"); ("M", EZ 3)] in
